@@ -120,14 +120,17 @@ def lop_term(op):
     if k == 'rename_child': return f'LRenameChild {kterm(op[1])} {kterm(op[2])}'
 
 
-def gen_dict_ops(rng, nops, counter):
+def gen_dict_ops(rng, nops, counter, shadow=False):
+    """shadow=True: some keys are names of dict / node methods (items, update, keys ...): the containers REJECT them; a rejected operation must
+    leave both views as they were (used for the two-view oracle only - the model has no notion of class attributes)"""
     ops = []
+    KEYS_ = KEYS + (['items', 'update', 'keys', 'pop', 'values', 'ayns'] if shadow else [])
     for _ in range(nops):
         kind = rng.choice(['setitem', 'setattr', 'delitem', 'delattr', 'pop', 'popd', 'setdefault', 'update', 'clear', 'set_child', 'remove_child', 'rename_child',
                            'setitem', 'delitem', 'pop', 'rename_child'])
         if kind == 'clear' and rng.random() < 0.7:
             kind = 'setitem'
-        key = rng.choice(KEYS + [0, 1])
+        key = rng.choice(KEYS_ + [0, 1])
         if kind in ('setattr', 'delattr'):
             key = rng.choice(['a', 'b', 'c', 'r'])     # attribute syntax: public identifiers only
         if kind in ('setitem', 'setattr', 'set_child', 'setdefault'):
@@ -137,11 +140,11 @@ def gen_dict_ops(rng, nops, counter):
         elif kind == 'popd':
             ops.append((kind, key, mkval(rng, counter)))
         elif kind == 'update':
-            ops.append((kind, [(rng.choice(KEYS + [0]), mkval(rng, counter)) for _ in range(rng.randint(0, 3))]))
+            ops.append((kind, [(rng.choice(KEYS_ + [0]), mkval(rng, counter)) for _ in range(rng.randint(0, 3))]))
         elif kind == 'clear':
             ops.append((kind,))
         elif kind == 'rename_child':
-            ops.append((kind, key, rng.choice(KEYS + [0, 1])))
+            ops.append((kind, key, rng.choice(KEYS_ + [0, 1])))
     return ops
 
 
@@ -289,7 +292,8 @@ def judge_ops(case):
     trace, (bad, step), errchg = run_ops(kind, init_v, rebuild_ops(ops))
     if bad:
         return dict(inconsistent=bad, after_op_index=step)
-    if errchg:
+    if errchg and not case.get('shadow'):
+        # (with shadowing keys an `update` over several pairs legitimately stops part-way: only the agreement of the two views is judged there)
         return dict(failed_operation_changed_state=errchg)
     return None
 
@@ -470,6 +474,13 @@ Fixpoint dtrace (s : dct) (ops : list dop) : list (dct * oc) := match ops with [
     for s, got, _ in usable:
         rep.case('path:' + s, got is not None and len(got) >= 2)
     # oracles on the implementation
+    # operations with keys that shadow class attributes are rejected by the containers: both views must stay as they were
+    for _ in range(N // 4):
+        counter = [0]
+        ks = rng.sample(KEYS + [0, 1], rng.randint(0, 4))
+        init = [(k, mkval(rng, counter)) for k in ks]
+        ops = gen_dict_ops(rng, rng.randint(2, 10), counter, shadow=True)
+        ocases.append(dict(kind='dict', shadow=True, init=[[k, [v[0], v[1]]] for k, v in init], ops=[strip_op(o) for o in ops]))
     base.run_oracle(rep, 'C17', 'two-view consistency after every operation', ocases, judge_ops)
     from .. import gen, mergecorr
     hist = [mergecorr.history_texts(gen.gen_history(rng, gen.PROFILES[p], 1, 3)) for p in ['plain', 'del', 'func', 'ops', 'ops'] for _ in range(N // 8)]
